@@ -1155,6 +1155,8 @@ impl<'a> Evaluator<'a> {
                         }
                         "last" => return Ok(items.last().cloned().map(Val::some).unwrap_or(Val::none())),
                         "count" => return Ok(Val::int(items.len() as i128)),
+                        "next" if mc.args.is_empty() => return Ok(items.first().cloned().map(Val::some).unwrap_or(Val::none())),
+                        "next_back" if mc.args.is_empty() => return Ok(items.last().cloned().map(Val::some).unwrap_or(Val::none())),
                         "max" | "min" if mc.args.is_empty() && items.iter().all(|v| matches!(v, Val::Int { input: false, .. })) => {
                             let it = items.iter().map(|v| match v { Val::Int { v, .. } => *v, _ => 0 });
                             let r = if name == "max" { it.max() } else { it.min() };
@@ -1258,6 +1260,21 @@ impl<'a> Evaluator<'a> {
                         }
                         "is_empty" => return Ok(Val::Bool(st.is_empty())),
                         "len" => return Ok(Val::int(st.len() as i128)),
+                        "match_indices" | "matches" if mc.args.len() == 1 => {
+                            let pv = self.eval(&mc.args[0], env)?;
+                            if let Val::List(cs) = &pv {
+                                // a set of characters as pattern: `['\n', '\r']`
+                                let set: Vec<char> = cs.iter().filter_map(|c| match c { Val::Char(c) => Some(*c), _ => None }).collect();
+                                if set.len() == cs.len() && !set.is_empty() {
+                                    return Ok(Val::List(st.char_indices().filter(|(_, c)| set.contains(c)).map(|(i, c)| if name == "matches" { Val::Str(c.to_string()) } else { Val::Tuple(vec![Val::int(i as i128), Val::Str(c.to_string())]) }).collect()));
+                                }
+                            }
+                            let pat = match pv { Val::Char(c) => c.to_string(), Val::Str(p) => p, o => return Err(format!("match_indices({})", o.show())) };
+                            if pat.is_empty() {
+                                return Err("match_indices with an empty pattern".into());
+                            }
+                            return Ok(Val::List(st.match_indices(pat.as_str()).map(|(i, m)| if name == "matches" { Val::Str(m.to_string()) } else { Val::Tuple(vec![Val::int(i as i128), Val::Str(m.to_string())]) }).collect()));
+                        }
                         "to_uppercase" => return Ok(Val::Str(st.to_uppercase())),
                         "to_lowercase" => return Ok(Val::Str(st.to_lowercase())),
                         "chars" => return Ok(Val::List(st.chars().map(Val::Char).collect())),
@@ -1419,6 +1436,30 @@ impl<'a> Evaluator<'a> {
             }
             Expr::Break(_) => Ok(Val::Ctor("$break".into(), vec![], BTreeMap::new())),
             Expr::Continue(_) => Ok(Val::Ctor("$continue".into(), vec![], BTreeMap::new())),
+            Expr::Index(ix) if matches!(self.eval(&ix.expr, env), Ok(Val::Str(_))) => {
+                // string slicing: `s[a..b]`, `s[..b]`, `s[a..]`, or `s[r]` with r a `$range` value
+                let Ok(Val::Str(st)) = self.eval(&ix.expr, env) else { unreachable!() };
+                let int = |v: Val| match v { Val::Int { v, .. } => Ok(v as usize), o => Err(format!("string index {}", o.show())) };
+                let (lo, hi) = match &*ix.index {
+                    Expr::Range(r) => {
+                        let lo = match &r.start { Some(e) => int(self.eval(e, env)?)?, None => 0 };
+                        let hi = match &r.end { Some(e) => int(self.eval(e, env)?)? + if matches!(r.limits, syn::RangeLimits::Closed(_)) { 1 } else { 0 }, None => st.len() };
+                        (lo, hi)
+                    }
+                    other => match self.eval(other, env)? {
+                        Val::Ctor(n, p, _) if n == "$range" && p.len() == 2 => {
+                            let lo = match &p[0] { Val::Int { v, .. } => *v as usize, _ => 0 };
+                            let hi = match &p[1] { Val::Int { v, .. } => *v as usize, _ => st.len() };
+                            (lo, hi)
+                        }
+                        o => return Err(format!("string indexed by {}", o.show())),
+                    },
+                };
+                if lo > hi || hi > st.len() || !st.is_char_boundary(lo) || !st.is_char_boundary(hi) {
+                    return Err(format!("string slice {}..{} out of range / not on a char boundary (the code would panic here)", lo, hi));
+                }
+                Ok(Val::Str(st[lo..hi].to_string()))
+            }
             Expr::Index(ix) => {
                 let base = self.eval(&ix.expr, env)?;
                 let idx = self.eval(&ix.index, env)?;
